@@ -610,7 +610,7 @@ def run(c):
     c.obligation('sem:v2-namespace-vs-reading', f2 + f3 == 0, 'correspondence', '%d strings' % (len(sem_const) + len(sem_sided)))
     c.obligation('corr:v2-namespace-vs-model', not (p2 or p3), 'correspondence', '%d strings, %d disagreements' % (len(sem_const) + len(sem_sided), len(p2) + len(p3)))
 
-    lean_src_stream(c, v2, rng, ctx, rec, var_shapes, fn_shapes, quick)
+    lean_src_stream(c, v2, rng, ctx, rec, var_shapes, fn_shapes, quick, f2 + f3)
     f4 = v1_stream(c, rng, sctx, quick)
 
     # ---------------------------------------------------------------- verdicts for model / code disagreements
@@ -626,7 +626,7 @@ def run(c):
         c.broken_no_input('proof', b, dict(detail=b))
 
 
-def lean_src_stream(c, v2, rng, ctx, rec, var_shapes, fn_shapes, quick):
+def lean_src_stream(c, v2, rng, ctx, rec, var_shapes, fn_shapes, quick, found=0):
     """ties `Src.print` / `elabExpr` of Model/C19Src.lean (the objects of theorem parse_print_partial) to the strings
     and the real parser: the Lean printer must produce the harness' canonical printing, and the real parser's result
     on that string must be the direct elaboration of the tree"""
@@ -665,7 +665,7 @@ def lean_src_stream(c, v2, rng, ctx, rec, var_shapes, fn_shapes, quick):
             c.traces += 1
     c.obligation('corr:lean-print-elab-vs-real-parser', nbad == 0, 'correspondence', '%d trees, %d mismatches' % (len(trees), nbad))
     c.log('stream 5 (Lean Src.print / elabExpr vs real parser): %d trees, %d mismatches' % (len(trees), nbad))
-    if nbad:
+    if nbad and not found:      # a failing input of the v2 code found by the reading explains the disagreement
         c.broken_no_input('corr:lean-print-elab', 'Lean printer / elaboration of source ASTs disagrees with the harness printer or the real parser', first)
 
 
